@@ -1079,7 +1079,40 @@ func calleeObj(info *types.Info, call *ast.CallExpr) types.Object {
 	fun := ast.Unparen(call.Fun)
 	switch f := fun.(type) {
 	case *ast.Ident:
-		return info.Uses[f]
+		o := info.Uses[f]
+		// a function-typed parameter of a spliced-in helper stands for the function handed to it
+		if v, ok := o.(*types.Var); ok {
+			if _, isSig := v.Type().Underlying().(*types.Signature); isSig {
+				for hops := 0; hops < 3; hops++ {
+					arg := funcValueOf(o)
+					if arg == nil {
+						break
+					}
+					switch a := ast.Unparen(arg).(type) {
+					case *ast.Ident:
+						if fn, ok := info.Uses[a].(*types.Func); ok {
+							return fn
+						}
+						if nv, ok := info.Uses[a].(*types.Var); ok {
+							o = nv
+							continue
+						}
+					case *ast.SelectorExpr:
+						if sel, ok := info.Selections[a]; ok {
+							if fn, ok := sel.Obj().(*types.Func); ok {
+								return fn
+							}
+						}
+						if fn, ok := info.Uses[a.Sel].(*types.Func); ok {
+							return fn
+						}
+					}
+					break
+				}
+				return info.Uses[f]
+			}
+		}
+		return o
 	case *ast.SelectorExpr:
 		if sel, ok := info.Selections[f]; ok {
 			return sel.Obj()
@@ -1440,6 +1473,16 @@ func (pe *pathEnum) closureCalled(q *Path, s *ast.ExprStmt) *ast.FuncLit {
 	if o == nil {
 		return nil
 	}
-	fl, _ := q.bind[o].(*ast.FuncLit)
-	return fl
+	if fl, ok := q.bind[o].(*ast.FuncLit); ok {
+		return fl
+	}
+	// a function-typed parameter of the helper being enumerated, bound to a parameterless closure
+	if arg := funcValueOf(o); arg != nil {
+		if fl, ok := ast.Unparen(arg).(*ast.FuncLit); ok {
+			if (fl.Type.Params == nil || len(fl.Type.Params.List) == 0) && (fl.Type.Results == nil || len(fl.Type.Results.List) == 0) {
+				return fl
+			}
+		}
+	}
+	return nil
 }
